@@ -101,10 +101,25 @@ type c20Task struct {
 	Start, Stop uint64
 	Batch, Conc int
 	Chain       uint64
+	URLs        string // the URLs the task's source client rotates through, sorted
 }
 
 func (t c20Task) String() string {
-	return fmt.Sprintf("%s/%s[%d,%d] b=%d c=%d chain=%d", t.Src, t.IG, t.Start, t.Stop, t.Batch, t.Conc, t.Chain)
+	return fmt.Sprintf("%s/%s[%d,%d] b=%d c=%d chain=%d urls=%s", t.Src, t.IG, t.Start, t.Stop, t.Batch, t.Conc, t.Chain, t.URLs)
+}
+
+// c20URLs lists the URLs a task's source client rotates through.
+func c20URLs(src shovel.Source) string {
+	seen := map[string]bool{}
+	for i := 0; i < 8; i++ {
+		seen[src.NextURL().String()] = true
+	}
+	var us []string
+	for u := range seen {
+		us = append(us, u)
+	}
+	sort.Strings(us)
+	return strings.Join(us, ",")
 }
 
 // analyse replays the event log. restartReturns: seq numbers at which a Restart call returned.
@@ -280,7 +295,7 @@ func c20Run(c *vk.Case) {
 	var fsrcs, figs []any
 	for _, s := range srcs {
 		if s.InFile {
-			fsrcs = append(fsrcs, map[string]any{"name": s.Name, "chain_id": s.ChainID, "url": s.node.URL(""), "poll_duration": "3ms", "batch_size": s.Batch, "concurrency": s.Conc})
+			fsrcs = append(fsrcs, map[string]any{"name": s.Name, "chain_id": s.ChainID, "url": s.node.URL("file-" + s.Name), "poll_duration": "3ms", "batch_size": s.Batch, "concurrency": s.Conc})
 		}
 	}
 	plantedInFile := false
@@ -375,7 +390,7 @@ func c20Run(c *vk.Case) {
 		if s.InFile {
 			cid += 100
 		}
-		if _, err := pool.Exec(ctx, `insert into shovel.sources(chain_id, name, url) values ($1, $2, $3)`, int(cid), s.Name, s.node.URL("")); err != nil {
+		if _, err := pool.Exec(ctx, `insert into shovel.sources(chain_id, name, url) values ($1, $2, $3)`, int(cid), s.Name, s.node.URL("db-"+s.Name)); err != nil {
 			c.Inconclusive("storing source: %v", err)
 			return false
 		}
@@ -416,9 +431,10 @@ func c20Run(c *vk.Case) {
 				// the winning copy of the integration (file over database) carries ref.Start;
 				// source settings come from the file copy of the source when there is one,
 				// a database-only source has none (defaults 1/1)
-				t := c20Task{Src: ref.Name, IG: ig.Name, Start: ref.Start, Stop: ref.Stop, Batch: 1, Conc: 1, Chain: s.ChainID}
+				t := c20Task{Src: ref.Name, IG: ig.Name, Start: ref.Start, Stop: ref.Stop, Batch: 1, Conc: 1, Chain: s.ChainID, URLs: s.node.URL("db-" + s.Name)}
 				if s.InFile {
 					t.Batch, t.Conc = s.Batch, s.Conc
+					t.URLs = s.node.URL("file-" + s.Name)
 				}
 				res = append(res, t.String())
 			}
@@ -493,7 +509,7 @@ func c20Run(c *vk.Case) {
 		var got []string
 		for _, t := range gens[len(gens)-1] {
 			in := t.VerifInfo()
-			got = append(got, c20Task{in.SrcName, in.IGName, in.Start, in.Stop, in.BatchSize, in.Concurrency, in.ChainID}.String())
+			got = append(got, c20Task{in.SrcName, in.IGName, in.Start, in.Stop, in.BatchSize, in.Concurrency, in.ChainID, c20URLs(in.Source)}.String())
 		}
 		sort.Strings(got)
 		want := expected()
